@@ -418,3 +418,19 @@ mod test {
     assert!(rule.verify_util().is_ok());
   }
 }
+
+#[cfg(feature = "verif-hooks")]
+pub mod verif_hooks {
+  /// `parse_an_b`: Ok((step_size, offset)) or Err(0 = IllegalCharacter, 1 = InvalidSyntax, 2 = other)
+  pub fn parse_an_b(input: &str) -> Result<(i32, i32), u8> {
+    match super::parse_an_b(input) {
+      Ok(p) => Ok((p.step_size, p.offset)),
+      Err(super::NthChildError::IllegalCharacter(_)) => Err(0),
+      Err(super::NthChildError::InvalidSyntax) => Err(1),
+      Err(_) => Err(2),
+    }
+  }
+  pub fn is_matched(step_size: i32, offset: i32, index: usize) -> bool {
+    super::FunctionalPosition { step_size, offset }.is_matched(index)
+  }
+}
